@@ -1081,6 +1081,53 @@ def judge_logged_group(cases, lab):
     return out
 
 
+def _recording_cache(lab):
+    """A user-written backend that implements only get / set (exists is inherited from Cache) and records
+    every access."""
+    from labrea.cache import Cache, CacheGetFailure
+
+    class Recording(Cache):
+        def __init__(self):
+            self.store, self.calls = {}, []
+
+        def get(self, evaluatable, options):
+            self.calls.append("get")
+            try:
+                return self.store[evaluatable.fingerprint(options)]
+            except KeyError:
+                raise CacheGetFailure(evaluatable, options, self)
+
+        def set(self, evaluatable, options, value):
+            self.calls.append("set")
+            self.store[evaluatable.fingerprint(options)] = value
+
+    return Recording()
+
+
+def _c16_backend_untouched(res, case, o, lab):
+    """With caching disabled (either option spelling, or the context manager) stored entries are neither read
+    nor written: a backend that records its accesses sees none during such an evaluation."""
+    nodes = case["nodes"]
+    if nodes[-1]["k"] != "ds" or nodes[-1].get("cache", "mem") != "mem":
+        return
+    g = _fresh(case, lab)
+    rec = _recording_cache(lab)
+    g.root.set_cache(rec)
+    ref, _, _, _ = _eval_with(g, o, ("on", "on", "on"), lab)
+    if not ref["ok"] or ref.get("lazy"):
+        return
+    if "set" not in rec.calls:
+        res.bad("backend-not-used", "a dataset given a cache with set_cache() did not store its value in it: %s" % rec.calls)
+        return
+    for cache in ("DISABLED", "DISABLE", "ctx"):
+        del rec.calls[:]
+        out, _, _, _ = _eval_with(g, o, (cache, "on", "on"), lab)
+        if rec.calls:
+            res.bad("disabled-touches-backend[cache=%s]" % cache, "caching disabled, yet the backend was accessed: %s" % rec.calls)
+        if not same_outcome(out, ref):
+            res.bad("value[cache=%s]" % cache, "with a user-written backend and caching disabled: %s instead of %s" % (observe.describe(out), observe.describe(ref)))
+
+
 def judge_c16_group(cases, lab):
     import logging as pylogging
     import zlib
@@ -1100,6 +1147,7 @@ def judge_c16_group(cases, lab):
     for c in cases:
         res = out[id(c)]
         o = dec(c["a"]["o"])
+        _c16_backend_untouched(res, c, o, lab)
         base_g = _fresh(c, lab)
         ref, ref_log, ref_rec, ref_miss = _eval_with(base_g, o, ("on", "on", "on"), lab)
         if ref.get("lazy"):
